@@ -191,8 +191,10 @@ def run(repo, rep):
                     if flags != [True, True]:
                         probs.append('%s: command set handled with flags %s, PS3.7 6.3.1 requires implicit VR little endian'
                                      % (fi.qualname, [norm(a) for a in n.args[1:3]]))
-    if sites < 3 and not m6_undecided:
-        probs.append('only %d command-set encode/decode sites found' % sites)
+    if sites < 3 and not m6_undecided and not probs:
+        # (a count below what was confirmed on the pinned tree means sites moved where the rule does not look: no verdict)
+        rep.undecided('C08.M0', 'only %d command-set encode / decode sites found (3 on the pinned tree): some site is written in a form '
+                      'the rule does not recognise' % sites)
     rep.check(not probs, 'C08.M0', 'dimsemessages:command-set-syntax', dm.relpath,
               '%d command-set encode/measure/decode sites pass (True, True)' % sites, '; '.join(probs))
 
@@ -400,6 +402,11 @@ def run(repo, rep):
                 # (targets inside tuple / list / starred targets count: ``old, self._data_set = self._data_set, None``)
                 tg = [x for t in (n.targets if isinstance(n, (ast.Assign, ast.Delete)) else [n.target]) for x in ast.walk(t)
                       if isinstance(x, ast.Attribute) and x.attr == '_data_set' and isinstance(x.ctx, (ast.Store, ast.Del))]
+                # (an attribute of the same name on ``self`` of a class that is not a DIMSE message is another thing: the
+                # reassembler's own buffer, say)
+                if tg and f5.cls is not None and not f5.cls.is_subclass_of(base) and all(
+                        isinstance(x.value, ast.Name) and x.value.id == 'self' for x in tg):
+                    tg = []
             elif isinstance(n, ast.Call) and norm(n.func) == 'setattr' and len(n.args) >= 2 and isinstance(n.args[1], ast.Constant) \
                     and n.args[1].value == '_data_set':
                 tg = [n]
